@@ -625,6 +625,7 @@ func tableTok(re *regexp.Regexp, pool []string) string {
 func filtersTok(g *dag.Graph, fs []compiled, served map[int][]ocispec.Descriptor) string {
 	var atPool, annPool []string
 	atPool = append(atPool, "")
+	annPool = append(annPool, "") // value of a missing key (the model evaluates the match eagerly)
 	for _, n := range g.Nodes {
 		atPool = append(atPool, n.ArtifactType, configMT(g, n), effType(g, n))
 		for _, v := range n.Annotations {
